@@ -357,6 +357,23 @@ def accumulator_shape(st):
     return steps, call
 
 
+_API_DEFAULTS = None
+
+
+def _api_defaults():
+    global _API_DEFAULTS
+    if _API_DEFAULTS is None:
+        import json
+        import os
+        p = os.path.join(os.path.dirname(os.path.dirname(os.path.abspath(__file__))), 'checks', 'api_defaults.json')
+        try:
+            with open(p) as f:
+                _API_DEFAULTS = json.load(f)['defaults']
+        except OSError:
+            _API_DEFAULTS = {}
+    return _API_DEFAULTS
+
+
 class LoopSpec:
     """invariant(E[, k]) -> list of (name, formula); decreases(E) -> Int term or None.
     For `for` loops over an IterV the invariant takes the ghost index k (elements 0..k-1 processed)."""
@@ -635,6 +652,7 @@ class Interp:
         (evaluated in the contract's globals, as at definition time)."""
         a = self.x.node.args
         pos = a.posonlyargs + a.args
+        self.check_api_defaults(a, pos)
         for arg, d in zip(pos[len(pos) - len(a.defaults):], a.defaults):
             if arg.arg not in env:
                 env[arg.arg] = self.eval(d, {})
@@ -644,6 +662,23 @@ class Interp:
         for arg in pos + a.kwonlyargs:
             if arg.arg not in env:
                 raise Unsupported('parameter %r is not bound by the harness and has no default' % arg.arg)
+
+    def check_api_defaults(self, a, pos):
+        """The default values in the real signature are part of the function's contract (callers rely on them, and a harness that
+        binds the parameter to a symbolic value would never read them): one obligation per defaulted parameter against the
+        committed table checks/api_defaults.json."""
+        rel = getattr(self.x, 'relpath', None)
+        if not rel or rel.startswith('ABS:'):
+            return
+        table = _api_defaults().get(rel, {}).get(self.x.qualname, {})
+        have = {}
+        for arg, d in zip(pos[len(pos) - len(a.defaults):], a.defaults):
+            have[arg.arg] = ast.unparse(d)
+        for arg, d in zip(a.kwonlyargs, a.kw_defaults):
+            if d is not None:
+                have[arg.arg] = ast.unparse(d)
+        for name in sorted(set(have) | set(table)):
+            self.path.oblige('signature/default-of-%s' % name, 'signature', BoolVal(have.get(name) == table.get(name)))
 
     # ---- statements
     def exec_block(self, stmts, env):
@@ -729,6 +764,7 @@ class Interp:
             if isinstance(v, ClassV):
                 raise PyRaise(v.name)
             if isinstance(v, ObjV) and v.cls in EXC:
+                p.ghost['raised'] = v
                 raise PyRaise(v.cls, v)
             raise Unsupported('raise of %r' % (v,))
         elif isinstance(st, ast.Assert):
@@ -1640,7 +1676,9 @@ class Interp:
             return self.call_closure(f, args, kwargs)
         if isinstance(f, ClassV):
             if f.name in EXC:
-                return ObjV(f.name)
+                e = ObjV(f.name)
+                e.exc_args = list(args)        # the message operands (checked by contracts that pin an error message)
+                return e
             ctor = self.loops.get('constructors', {}).get(f.name)
             if ctor:
                 return ctor(self.path, args, kwargs)
